@@ -835,7 +835,7 @@ def main(chk):
                 'propagation, declared columns, read/write twice with the package class compared HDU by HDU; met_to_string/string_to_met_utc against the calendar model. '
                 'non-trivial = ≥ 2 axes and weighted / data present / > 1 event / fractional second')
     chk.assumptions = TRUSTED
-    chk.lean(['IxpeVerif.Props.C19', 'IxpeVerif.Props.Audit.C19'])
+    chk.lean(['IxpeVerif.Props.C19', 'IxpeVerif.Props.Audit.C19'], ['hist_set_errors', 'hist_errors', 'hist_set_content', 'hist_empty_copy', 'hist_copy', 'hist_hist_add', 'hist_hist_sub', 'hist_hist_mul', 'hist_save', 'hist_from_file'])
     known_findings(chk)
     explore(chk)
     return chk.finish(level='proof', trusted=TRUSTED, search=lambda k: explore(chk, 3, 'C19-search', lean=False))
